@@ -34,7 +34,7 @@ def parseLines (s : String) : Option (List FLine) := (s.splitOn ",").mapM parseL
 def stepBasic (st : St) (op res : String) : St × List String :=
   match words op, (res.splitOn " ; ").map words with
   | ["freset"], _ => ({}, ["br:file.fresh-process"])
-  | ["fsetup", proto, _, _], [[orc], [r]] =>
+  | "fsetup" :: proto :: _ :: _ :: _, [[orc], [r]] =>     -- an optional fifth word: how the file is named to the plugin (a symbolic link, ./ and //): no model input
     match parseLines orc with
     | none => (st, ["DIVERGE drift unparsed-oracle"])
     | some lines =>
@@ -73,7 +73,10 @@ def stepBasic (st : St) (op res : String) : St × List String :=
         | ["yiaddr", a, "stop"] => ((parseHex a).bind (fun b => if b.length == 4 then some (FReply4.yiaddr (BitVec.ofNat 32 (bytesToNat b))) else none))
         | _ => none
       match obs with
-      | none => (st, ["DIVERGE dom unexpected-result", s!"FAIL C10 DHCPv4 query answered {" ".intercalate r}"])
+      | none => (st, ["DIVERGE dom unexpected-result", s!"FAIL C10 DHCPv4 query answered {" ".intercalate r}"] ++
+          (if r.head? == some "PANIC" || r == ["yiaddr", "-", "stop"] then
+            [s!"FAIL C19 file: the DHCPv4 reply cannot be put on the wire (its yiaddr is not an IPv4 address): {" ".intercalate r}",
+             s!"FAIL C01 file: the DHCPv4 reply cannot be put on the wire: {" ".intercalate r}"] else []))
       | some o =>
         let mon := st.mon.step (.q4 m o)
         (st, (if mr == .pass then "br:fq4.pass" else "br:fq4.listed") ::
